@@ -199,16 +199,10 @@ def flushMem (s : State) (oi : Nat) (o : Obj) (force : Bool) : State × Option E
     match s.entry o.res with
     | none =>
       if !force then
-        -- self._data.clear(); self._update(self._load_from_resource())
-        let cur := s.root o
-        let (emptied, gone) : T × List T := match cur with
-          | .dict i kvs => (.dict i [], kvs.map (·.2))
-          | .list i xs => (.list i [], xs)
-          | t => (t, [])
-        let s1 := (s.setCell o.cell emptied).addDetached oi gone
-        match loadFromResource s1 o with
-        | none => (s1, none)
-        | some d => mergeInto s1 oi o d
+        -- self._update(self._load_from_resource()): merged in place, children stay
+        match loadFromResource s o with
+        | none => (s, none)
+        | some d => mergeInto s oi o d
       else (s, none)
     | some e =>
       -- `finally`: the size no longer counts the entry; a forced flush keeps the entry
@@ -227,13 +221,11 @@ def flushMem (s : State) (oi : Nat) (o : Obj) (force : Bool) : State × Option E
           (fin s1 (if force then { e with fmeta := s1.stat o.res } else e), none)
       else (fin s e, none)
   else
-    -- still buffered and not forced: stop sharing by rebuilding the data from scratch
-    let base := (s.root o).toBase
-    let fresh : T := if o.isDict then .dict s.next [] else .list s.next []
+    -- still buffered and not forced: stop sharing the top-level container; the nested
+    -- collections are kept: self._data = type(self._data)(self._data)
     let c := s.nextCell
     let o' := { o with cell := c }
-    let s1 := ({ (s.setCell c fresh) with nextCell := c + 1 }.setObj oi o').own oi s.next (s.next + 1)
-    mergeInto s1 oi o' base
+    ({ (s.setCell c (s.root o)) with nextCell := c + 1 }.setObj oi o', none)
 
 def flushOne (s : State) (oi : Nat) (force : Bool) : State × Option Err :=
   match s.objs[oi]? with
